@@ -383,6 +383,10 @@ func multiNIC(lo, hi int) {
 func child(t *testing.T) {
 	var lo, hi int
 	fmt.Sscan(os.Getenv("VERIF_RANGE"), &lo, &hi)
+	if os.Getenv("VERIF_PHASE") == "fd" { // real time, pinned toolchain
+		fdSweep(lo, hi)
+		os.Exit(run.Finish("", nil))
+	}
 	vt.Bubble(t, func() {
 		switch os.Getenv("VERIF_PHASE") {
 		case "tcp":
@@ -412,7 +416,11 @@ func TestC06(t *testing.T) {
 			go func() {
 				defer wg.Done()
 				tag := fmt.Sprintf("%s%d", phase, c)
-				res := run.RunChild(fw.ChildSpec{Bin: os.Getenv("VERIF_BIN_VT"), Test: "^TestC06$", Tag: tag, Env: []string{"VERIF_PHASE=" + phase, fmt.Sprintf("VERIF_RANGE=%d %d", n*c/parts, n*(c+1)/parts)}, Timeout: time.Duration(fw.N(10, 90)) * time.Minute})
+				bin := os.Getenv("VERIF_BIN_VT")
+				if phase == "fd" {
+					bin = os.Getenv("VERIF_BIN_PLAIN")
+				}
+				res := run.RunChild(fw.ChildSpec{Bin: bin, Test: "^TestC06$", Tag: tag, Env: []string{"VERIF_PHASE=" + phase, fmt.Sprintf("VERIF_RANGE=%d %d", n*c/parts, n*(c+1)/parts)}, Timeout: time.Duration(fw.N(10, 90)) * time.Minute})
 				if !res.Done {
 					run.ChildCrashed(res, "C06", tag)
 				}
@@ -422,8 +430,9 @@ func TestC06(t *testing.T) {
 	launch("tcp", fw.N(160, 8000), 8)
 	launch("opt", fw.N(1200, 60000), 4)
 	launch("nic", fw.N(400, 20000), 4)
+	launch("fd", fw.N(480, 24000), 4)
 	wg.Wait()
-	code := run.Finish("every frame emitted in three sweeps is decoded by the independent codec h/rfc (IPv4 version/IHL/total length/header checksum/TTL, IPv6 payload length, TCP data offset/checksum with pseudo-header/option grammar/padding/SYN-only options, UDP length/checksum, ICMPv4/ICMPv6 checksums, ARP sizes, differing IP identification on consecutive packets > 68 bytes of one flow) and its addressing compared with the socket / answered packet / first matching route. Sweeps: (1) two-stack TCP scenarios as in C01 (IPv4/IPv6, SACK, MTUs, faults, retransmissions), both links; (2) scripted-peer connections over all option combinations (timestamps x SACK x window scale x MSS, 1-5 out-of-order pieces => SACK blocks, every payload length class, FIN/RST); (3) stacks with 1-3 interfaces, PRNG-ordered overlapping route tables, UDP datagrams of boundary lengths to in- and off-subnet destinations over IPv4 and IPv6 (interface and source address compared with an independent first-match route lookup), echo requests to every interface address. distinct = configuration classes; frames per kind are counted",
-		[]string{"transport checksums are demanded because the harness link does not declare checksum offload", "the fd-based Ethernet link is exercised by C07's real-time child, not here"})
+	code := run.Finish("every frame emitted in three sweeps is decoded by the independent codec h/rfc (IPv4 version/IHL/total length/header checksum/TTL, IPv6 payload length, TCP data offset/checksum with pseudo-header/option grammar/padding/SYN-only options, UDP length/checksum, ICMPv4/ICMPv6 checksums, ARP sizes, differing IP identification on consecutive packets > 68 bytes of one flow) and its addressing compared with the socket / answered packet / first matching route. Sweeps: (1) two-stack TCP scenarios as in C01 (IPv4/IPv6, SACK, MTUs, faults, retransmissions), both links; (2) scripted-peer connections over all option combinations (timestamps x SACK x window scale x MSS, 1-5 out-of-order pieces => SACK blocks, every payload length class, FIN/RST); (3) stacks with 1-3 interfaces, PRNG-ordered overlapping route tables, UDP datagrams of boundary lengths to in- and off-subnet destinations over IPv4 and IPv6 (interface and source address compared with an independent first-match route lookup), echo requests to every interface address; (4) the fd-based Ethernet link over a socketpair (real time, pinned toolchain): the harness plays an on-link host and a gateway (IPv4 and IPv6), answers ARP requests / neighbour solicitations, injects echo requests, SYNs + data, refusals of active opens and announcements of changed MACs; every Ethernet frame read from the descriptor must carry the interface's MAC as source, a known EtherType matching its payload, the frame length implied by the IP length, and as destination the MAC most recently resolved for the next hop of an independent first-match route lookup (gateway if the entry has one; broadcast for ARP requests; the requester for ARP replies and neighbour advertisements). distinct = configuration classes; frames per kind are counted",
+		[]string{"transport checksums are demanded because the harness link does not declare checksum offload", "fd-based sweep: an expected frame not seen within 15 s of wall clock makes the run inconclusive, it is not judged here (C02/C11/C13 own delivery)"})
 	os.Exit(code)
 }
